@@ -894,6 +894,13 @@ int32_t tls13VerifyBinder(ssl_t *ssl,
     hmacAlg = tls13GetPskHmacAlg(ssl->sec.tls13ChosenPsk);
     hmacLen = tls13GetPskHashLen(ssl->sec.tls13ChosenPsk);
 
+    /* The binders list is the tail of the ClientHello: it cannot be longer
+       than the message (the difference below would wrap around). */
+    if (ssl->sec.tls13BindersLen > ssl->sec.tls13CHLen)
+    {
+        goto out_decode_error;
+    }
+
     tls13TranscriptHashUpdate(ssl,
             ssl->sec.tls13CHStart,
             ssl->sec.tls13CHLen - ssl->sec.tls13BindersLen);
